@@ -122,6 +122,26 @@ func mkCustom() map[string]*CustomOp {
 		}
 		return res, nil
 	}})
+	// csum: the (wrapping) sum of an integer list - an operator over a list operand, usually a variable the caller binds
+	// from a buffer of its own
+	ops = append(ops, &CustomOp{Name: "csum", Fn: func(a []interface{}) (interface{}, error) {
+		if len(a) != 1 {
+			return nil, ErrCustom
+		}
+		switch l := a[0].(type) {
+		case []int64:
+			var s int64
+			for _, x := range l {
+				s += x
+			}
+			return s, nil
+		case []string:
+			if len(l) == 0 {
+				return int64(0), nil // the empty list literal
+			}
+		}
+		return nil, ErrCustom
+	}})
 	// _cid: a registered operator whose name does not start with a letter (zero arguments, like cz)
 	ops = append(ops, &CustomOp{Name: "_cid", Fn: func(a []interface{}) (interface{}, error) {
 		if len(a) != 0 {
@@ -289,7 +309,7 @@ func nestedDeepSubExpr() *eval.Expr {
 }
 
 // names declared stateless in StatelessOperators ("sq" is declared but never registered)
-var stdStateless = []string{"sb", "si", "sz", "sfail", "spos", "spick", "ss", "slen", "sq", "add"}
+var stdStateless = []string{"sb", "si", "sz", "sfail", "spos", "spick", "ss", "slen", "ssum", "sq", "add"}
 
 var stdConsts = map[string]interface{}{
 	"KT": true, "KF": false, "KI": int64(7), "KN": int64(-3), "KZ": int64(0), "KS": "kay",
@@ -774,7 +794,12 @@ func (g *G) Int(d int) *Node {
 			if g.Stateless && g.R.Intn(2) == 0 {
 				pre = "s"
 			}
-			switch g.R.Intn(6) {
+			switch g.R.Intn(7) {
+			case 6:
+				if g.Lists {
+					return Op(pre+"sum", TInt, g.IList(d-1))
+				}
+				return Op(pre+"z", TInt)
 			case 5:
 				n := []int{1, 3, 3, 4, 5}[g.R.Intn(5)]
 				ch := make([]*Node, n)
